@@ -53,7 +53,7 @@ func C03Repo(ctx context.Context, run *common.Run, nScenarios int) {
 
 	common.ParallelFor(nScenarios, runtime.NumCPU(), func(si int) {
 		rng := common.Rng(run.Seed, int64(7000+si))
-		mode := []string{"main-chain", "fork-below-split", "difficulty-disabled", "orphan-first"}[si%4]
+		mode := []string{"main-chain", "fork-below-split", "difficulty-disabled", "orphan-first", "fork-below-split-difficulty-disabled"}[si%5]
 		// bootstrap to 556766
 		repo, err := NewFixtureRepo(ctx, fx, 767)
 		if err != nil {
@@ -78,8 +78,13 @@ func C03Repo(ctx context.Context, run *common.Run, nScenarios int) {
 		parentHash := *tipParent.BlockHash()
 		parentTime := tipParent.Timestamp
 
+		if mode == "fork-below-split-difficulty-disabled" {
+			// proof of work is what keeps a forged fork out in production; with the check disabled
+			// (as a chain with real work would pass it) the split rule alone must refuse the header
+			repo.DisableDifficulty()
+		}
 		switch mode {
-		case "fork-below-split":
+		case "fork-below-split", "fork-below-split-difficulty-disabled":
 			// build a fork from 556766-k with easy-bits headers (accepted below the activation
 			// height when their proof of work is valid), up to height 556766
 			k := 1 + rng.Intn(40)
@@ -90,7 +95,7 @@ func C03Repo(ctx context.Context, run *common.Run, nScenarios int) {
 			for h := 0; h < k; h++ {
 				hd := &wire.BlockHeader{Version: 0x20000000, PrevBlock: prev, Timestamp: ts + 600, Bits: 0x207fffff, Nonce: rng.Uint32()}
 				rng.Read(hd.MerkleRoot[:])
-				if !grind(hd, 4000) {
+				if mode == "fork-below-split" && !grind(hd, 4000) {
 					okFork = false
 					break
 				}
@@ -107,7 +112,7 @@ func C03Repo(ctx context.Context, run *common.Run, nScenarios int) {
 				return
 			}
 			parentHash, parentTime = prev, ts
-			run.Count("fork-below-split/forks-built", 1)
+			run.Count(mode+"/forks-built", 1)
 		case "after-clean":
 			if err := repo.Clean(ctx); err != nil {
 				viol("maintenance", "clean-fails-at-split", err.Error(), w)
@@ -234,7 +239,7 @@ func C03Repo(ctx context.Context, run *common.Run, nScenarios int) {
 		}
 
 		// 3. the BSV split header itself is accepted on the main chain
-		if mode != "fork-below-split" {
+		if mode != "fork-below-split" && mode != "fork-below-split-difficulty-disabled" {
 			c := classOf(bsv)
 			run.Count("bsv-header/"+mode+"/"+c, 1)
 			if c != "ok" {
@@ -255,7 +260,7 @@ func C03Repo(ctx context.Context, run *common.Run, nScenarios int) {
 		if h := repo.HashHeight(*bchSplitHash); h != -1 {
 			viol("foreign-split-headers-refused-as-wrong-chain", "bch-split-header-known/"+mode, "", w)
 		}
-		if hh, err := repo.Hash(ctx, splitHeight); mode != "fork-below-split" && (err != nil || !hh.Equal(bsvSplitHash)) {
+		if hh, err := repo.Hash(ctx, splitHeight); mode != "fork-below-split" && mode != "fork-below-split-difficulty-disabled" && (err != nil || !hh.Equal(bsvSplitHash)) {
 			viol("bsv-split-header-accepted", "hash-at-split-height-not-bsv/"+mode, fmt.Sprintf("%v %v", hh, err), w)
 		}
 
@@ -301,7 +306,7 @@ func RunC03(tier string, seed int64, peerPart func(ctx context.Context, run *com
 	run.Rule = "repository side: real chain replayed to 556766, then at height 556767 the BSV header, the BCH split header (child / orphan / after Clean / after Save+Load) and generated headers (random fields, BSV header with one field changed, easy bits with ground nonce, required bits without work) on the main chain and on forks built below the split; peer side: scripted replies to the verification request. distinct = (mode, header kind, verdict)"
 	run.Assumptions = []string{"the BTC split header (height 478559) cannot be offered: its 80-byte pre-image is not available offline; the BTC table entry shares the code path of the BCH entry",
 		"fixture headers_556000.txt holds the real chain around the split"}
-	n := 60
+	n := 100
 	if tier == "thorough" {
 		n = 3000
 	}
